@@ -20,15 +20,43 @@ class Z3Alg:
     s.f_band = z3.Function('band', z3.IntSort(), z3.IntSort(), z3.IntSort())
     s.f_bor  = z3.Function('bor',  z3.IntSort(), z3.IntSort(), z3.IntSort())
     s.f_bxor = z3.Function('bxor', z3.IntSort(), z3.IntSort(), z3.IntSort())
+    s.f_divp = z3.Function('divp', z3.IntSort(), z3.IntSort(), z3.IntSort())
+    s.f_modp = z3.Function('modp', z3.IntSort(), z3.IntSort(), z3.IntSort())
+    s.f_mulp = z3.Function('mulp', z3.IntSort(), z3.IntSort(), z3.IntSort())
+  def mulp(s,x,k):
+    # x * 2^k : linear when either side is a numeral, otherwise uninterpreted (no nonlinear term ever reaches the solver)
+    k=z3.simplify(k) if isinstance(k,z3.ExprRef) else z3.IntVal(k)
+    x=z3.simplify(x) if isinstance(x,z3.ExprRef) else z3.IntVal(x)
+    if z3.is_int_value(k) and 0<=k.as_long()<=4096: return x*z3.IntVal(2**k.as_long())
+    if z3.is_int_value(x): return z3.simplify(x*s.pow2(k))
+    return s.f_mulp(x,k)
   def pow2(s,k):
     k = z3.simplify(k) if isinstance(k,z3.ExprRef) else z3.IntVal(k)
     if z3.is_int_value(k) and 0 <= k.as_long() <= 4096: return z3.IntVal(2**k.as_long())
     return s.f_pow2(k)
-  def band(s,x,y): return s.f_band(x,y)
-  def bor(s,x,y):  return s.f_bor(x,y)
-  def bxor(s,x,y): return s.f_bxor(x,y)
+  # & | ^ are commutative (schema 'comm', cross-checked): operands are always put in one canonical order
+  @staticmethod
+  def _ord(x,y):
+    x=x if isinstance(x,z3.ExprRef) else z3.IntVal(x); y=y if isinstance(y,z3.ExprRef) else z3.IntVal(y)
+    return (x,y) if x.get_id()<=y.get_id() else (y,x)
+  def band(s,x,y): return s.f_band(*s._ord(x,y))
+  def bor(s,x,y):  return s.f_bor(*s._ord(x,y))
+  def bxor(s,x,y): return s.f_bxor(*s._ord(x,y))
+  def bor2(s,a,b,rhs):
+    # conclusion `a|b == rhs` stated for both operand orders: a or b may be a fresh arithmetic expression that is only
+    # semantically equal to the operand of the code's term, so the canonical (id-based) order need not coincide
+    return z3.And(s.f_bor(a,b)==rhs, s.f_bor(b,a)==rhs)
   def div(s,x,y): return x / y          # SMT div: floor for positive divisor
   def mod(s,x,y): return x % y
+  def divp(s,x,k):
+    # x div 2^k / x mod 2^k: uninterpreted for symbolic k (everything the prover knows comes from the schemas), native for numerals
+    k=z3.simplify(k) if isinstance(k,z3.ExprRef) else z3.IntVal(k)
+    if z3.is_int_value(k) and 0<=k.as_long()<=4096: return x / z3.IntVal(2**k.as_long())
+    return s.f_divp(x,k)
+  def modp(s,x,k):
+    k=z3.simplify(k) if isinstance(k,z3.ExprRef) else z3.IntVal(k)
+    if z3.is_int_value(k) and 0<=k.as_long()<=4096: return x % z3.IntVal(2**k.as_long())
+    return s.f_modp(x,k)
   def imp(s,a,b): return z3.Implies(a,b)
   def and_(s,*a): return z3.And(*a)
   def or_(s,*a): return z3.Or(*a)
@@ -42,6 +70,10 @@ class PyAlg:
   def bxor(s,x,y): return x ^ y
   def div(s,x,y): return x // y if y>0 else 0  # schemas only divide by pow2(..) > 0
   def mod(s,x,y): return x % y if y>0 else 0
+  def divp(s,x,k): return x // 2**k if k>=0 else 0
+  def modp(s,x,k): return x % 2**k if k>=0 else 0
+  def mulp(s,x,k): return x * 2**k if k>=0 else 0
+  def bor2(s,a,b,rhs): return (a|b)==rhs
   def imp(s,a,b): return (not a) or b
   def and_(s,*a): return all(a)
   def or_(s,*a): return any(a)
@@ -50,53 +82,64 @@ class PyAlg:
 
 # ----------------------------------------------------------------------------- lemma schemas
 # name -> (arity description, function(A, *ints) -> formula).   All variables range over Z.
-def _pw_pos(A,k):      return A.imp(k>=0, A.and_(A.pow2(k)>=1, A.pow2(k)>=k+1))
+def _pw_pos(A,k):      return A.and_(A.imp(k>=0, A.and_(A.pow2(k)>=1, A.pow2(k)>=k+1)), A.imp(A.eq(k,0),A.eq(A.pow2(k),1)), A.imp(A.eq(k,1),A.eq(A.pow2(k),2)), A.imp(k>=1, A.pow2(k)>=2))
 def _pw_mono(A,j,k):   return A.imp(A.and_(j>=0, j<k), 2*A.pow2(j) <= A.pow2(k))
 def _pw_succ(A,j,k):   return A.imp(A.and_(j>=0, A.eq(k,j+1)), A.eq(A.pow2(k), 2*A.pow2(j)))
-def _pw_add(A,i,j,k):  return A.imp(A.and_(i>=0, j>=0, A.eq(k,i+j)), A.eq(A.pow2(k), A.pow2(i)*A.pow2(j)))
-def _and_mask(A,x,y,k):return A.imp(A.and_(k>=0, A.eq(y, A.pow2(k)-1)), A.eq(A.band(x,y), A.mod(x, A.pow2(k))))
-def _and_mask_l(A,x,y,k):return A.imp(A.and_(k>=0, A.eq(x, A.pow2(k)-1)), A.eq(A.band(x,y), A.mod(y, A.pow2(k))))
+def _pw_add(A,i,j,k):  return A.imp(A.and_(i>=0, j>=0, A.eq(k,i+j)), A.eq(A.pow2(k), A.mulp(A.pow2(i),j)))
+def _and_mask(A,x,y,k):return A.imp(A.and_(k>=0, A.eq(y, A.pow2(k)-1)), A.eq(A.band(x,y), A.modp(x,k)))
+def _and_mask_l(A,x,y,k):return A.imp(A.and_(k>=0, A.eq(x, A.pow2(k)-1)), A.eq(A.band(x,y), A.modp(y,k)))
 def _and_range(A,x,y): return A.and_(A.imp(y>=0, A.and_(0<=A.band(x,y), A.band(x,y)<=y)),
                                      A.imp(x>=0, A.and_(0<=A.band(x,y), A.band(x,y)<=x)))
 def _and_clear(A,x,y,lo,hi,w):
   return A.imp(A.and_(lo>=0, w>=0, A.eq(hi,lo+w), A.eq(y, -(A.pow2(hi)-A.pow2(lo))-1)),
-               A.eq(A.band(x,y), x - A.mod(A.div(x,A.pow2(lo)), A.pow2(w))*A.pow2(lo)))
+               A.eq(A.band(x,y), x - A.mulp(A.modp(A.divp(x,lo),w),lo)))
 def _and_clearbit(A,x,y,k):
   return A.imp(A.and_(k>=0, A.eq(y, -A.pow2(k)-1)),
-               A.eq(A.band(x,y), x - A.mod(A.div(x,A.pow2(k)), 2)*A.pow2(k)))
-def _and_one(A,x,y):   return A.imp(A.eq(y,1), A.eq(A.band(x,y), A.mod(x,2)))
+               A.eq(A.band(x,y), x - A.mulp(A.modp(A.divp(x,k),1),k)))
+def _and_one(A,x,y):   return A.imp(A.eq(y,1), A.eq(A.band(x,y), A.modp(x,1)))
 def _or_range(A,x,y,k):return A.imp(A.and_(k>=0, 0<=x, x<A.pow2(k), 0<=y, y<A.pow2(k)),
                                     A.and_(A.bor(x,y)<A.pow2(k)))
 def _or_lower(A,x,y):  return A.imp(A.and_(x>=0,y>=0), A.and_(A.bor(x,y)>=x, A.bor(x,y)>=y, A.bor(x,y)<=x+y))
 def _or_field(A,x,y,lo,w,hi):
   # x has no bit in [lo,hi), y has bits only in [lo,hi)  =>  x|y == x+y
   return A.imp(A.and_(lo>=0, w>=0, A.eq(hi,lo+w), x>=0, y>=0,
-                      A.eq(A.mod(A.div(x,A.pow2(lo)),A.pow2(w)),0),
-                      A.eq(A.mod(y,A.pow2(lo)),0), y<A.pow2(hi)),
+                      A.eq(A.modp(A.divp(x,lo),w),0),
+                      A.eq(A.modp(y,lo),0), y<A.pow2(hi)),
                A.eq(A.bor(x,y), x+y))
 def _or_bit(A,x,y,k):
-  return A.imp(A.and_(k>=0, x>=0, A.eq(A.mod(A.div(x,A.pow2(k)),2),0), A.or_(A.eq(y,0),A.eq(y,A.pow2(k)))),
+  return A.imp(A.and_(k>=0, x>=0, A.eq(A.modp(A.divp(x,k),1),0), A.or_(A.eq(y,0),A.eq(y,A.pow2(k)))),
                A.eq(A.bor(x,y), x+y))
 def _xor_range(A,x,y,k):return A.imp(A.and_(k>=0, 0<=x, x<A.pow2(k), 0<=y, y<A.pow2(k)),
                                     A.and_(0<=A.bxor(x,y), A.bxor(x,y)<A.pow2(k)))
-def _shl_mod(A,x,k,j): return A.imp(A.and_(j>=0, j<=k), A.eq(A.mod(x*A.pow2(k), A.pow2(j)), 0))
-def _mod_small(A,x,k): return A.imp(A.and_(k>=0, 0<=x, x<A.pow2(k)), A.and_(A.eq(A.mod(x,A.pow2(k)),x), A.eq(A.div(x,A.pow2(k)),0)))
+def _shl_mod(A,x,k,j): return A.and_(A.imp(A.and_(j>=0, j<=k), A.eq(A.modp(A.mulp(x,k), j), 0)), A.imp(k>=0, A.and_(A.eq(A.divp(A.mulp(x,k),k),x), A.imp(x>=0,A.mulp(x,k)>=x), A.imp(x<=0,A.mulp(x,k)<=x), A.imp(A.eq(x,1),A.eq(A.mulp(x,k),A.pow2(k))))), A.imp(A.eq(k,0),A.eq(A.mulp(x,k),x)))
+def _mod_small(A,x,k): return A.imp(A.and_(k>=0, 0<=x, x<A.pow2(k)), A.and_(A.eq(A.modp(x,k),x), A.eq(A.divp(x,k),0)))
 def _mod_wrap(A,x,k):
   P=A.pow2(k)
-  return A.imp(k>=0, A.and_(A.imp(A.and_(-P<=x, x<0), A.and_(A.eq(A.mod(x,P), x+P), A.eq(A.div(x,P),-1))),
-                            A.imp(A.and_(P<=x, x<2*P), A.and_(A.eq(A.mod(x,P), x-P), A.eq(A.div(x,P),1)))))
+  return A.imp(k>=0, A.and_(A.imp(A.and_(-P<=x, x<0), A.and_(A.eq(A.modp(x,k), x+P), A.eq(A.divp(x,k),-1))),
+                            A.imp(A.and_(P<=x, x<2*P), A.and_(A.eq(A.modp(x,k), x-P), A.eq(A.divp(x,k),1)))))
 def _divmod(A,x,k):
   P=A.pow2(k)
-  return A.imp(k>=0, A.and_(A.eq(x, P*A.div(x,P)+A.mod(x,P)), 0<=A.mod(x,P), A.mod(x,P)<P,
-                            A.imp(x>=0, A.and_(A.div(x,P)>=0, A.div(x,P)<=x)), A.imp(x<0, A.div(x,P)<0)))
+  return A.imp(k>=0, A.and_(A.eq(x, A.mulp(A.divp(x,k),k)+A.modp(x,k)), 0<=A.modp(x,k), A.modp(x,k)<P,
+                            A.imp(x>=0, A.and_(A.divp(x,k)>=0, A.divp(x,k)<=x)), A.imp(x<0, A.divp(x,k)<0),
+                            A.imp(A.eq(k,0), A.and_(A.eq(A.divp(x,k),x), A.eq(A.modp(x,k),0)))))
 def _div_lt(A,x,k,j,i):
   # 0 <= x < 2^i and i == j+k  =>  x div 2^k < 2^j
-  return A.imp(A.and_(k>=0, j>=0, A.eq(i,j+k), 0<=x, x<A.pow2(i)), A.div(x,A.pow2(k)) < A.pow2(j))
+  return A.imp(A.and_(k>=0, j>=0, A.eq(i,j+k), 0<=x, x<A.pow2(i)), A.divp(x,k) < A.pow2(j))
 def _div_ge(A,x,k):
   # x >= 2^k  <=>  x div 2^k >= 1   (for x >= 0)
-  return A.imp(A.and_(k>=0, x>=0), A.eq(x>=A.pow2(k), A.div(x,A.pow2(k))>=1))
+  return A.imp(A.and_(k>=0, x>=0), A.eq(x>=A.pow2(k), A.divp(x,k)>=1))
 
 def _comm(A,x,y): return A.and_(A.eq(A.band(x,y),A.band(y,x)), A.eq(A.bor(x,y),A.bor(y,x)), A.eq(A.bxor(x,y),A.bxor(y,x)))
+def _insert(A,bor,x,lo,w,m):
+  cleared = x - A.mulp(A.modp(A.divp(x,lo),w),lo)
+  return A.imp(A.and_(lo>=0, w>=0, x>=0, 0<=m, m<A.pow2(w)), A.bor2(cleared, A.mulp(m,lo), cleared + A.mulp(m,lo)))
+def _insert_range(A,x,lo,w,n,m):
+  return A.imp(A.and_(lo>=0, w>=0, lo+w<=n, 0<=x, x<A.pow2(n), 0<=m, m<A.pow2(w)),
+               A.and_(0 <= x - A.mulp(A.modp(A.divp(x,lo),w),lo) + A.mulp(m,lo), x - A.mulp(A.modp(A.divp(x,lo),w),lo) + A.mulp(m,lo) < A.pow2(n)))
+def _shl_or(A,bor,v,k,u):
+  return A.imp(A.and_(k>=0, v>=0, 0<=u, u<A.pow2(k)), A.bor2(A.mulp(v,k),u, A.mulp(v,k)+u))
+def _cat_range(A,v,a,k,u,t):
+  return A.imp(A.and_(a>=0, k>=0, A.eq(t,a+k), 0<=v, v<A.pow2(a), 0<=u, u<A.pow2(k)), A.and_(0<=A.mulp(v,k)+u, A.mulp(v,k)+u<A.pow2(t)))
 LEMMAS = {
  'comm':(2,_comm),
  'pw-pos':(1,_pw_pos), 'pw-mono':(2,_pw_mono), 'pw-succ':(2,_pw_succ), 'pw-add':(3,_pw_add),
@@ -105,6 +148,8 @@ LEMMAS = {
  'or-range':(3,_or_range), 'or-lower':(2,_or_lower), 'or-field':(5,_or_field), 'or-bit':(3,_or_bit),
  'xor-range':(3,_xor_range), 'shl-mod':(3,_shl_mod), 'mod-small':(2,_mod_small), 'mod-wrap':(2,_mod_wrap),
  'divmod':(2,_divmod), 'div-lt':(4,_div_lt), 'div-ge':(2,_div_ge),
+ 'insert':(4,lambda A,x,lo,w,m:_insert(A,A.bor,x,lo,w,m)), 'insert-range':(5,_insert_range),
+ 'shl-or':(3,lambda A,v,k,u:_shl_or(A,A.bor,v,k,u)), 'cat-range':(5,_cat_range),
 }
 
 def crosscheck_lemmas(seed=0, nrand=3000):
@@ -121,7 +166,7 @@ def crosscheck_lemmas(seed=0, nrand=3000):
     import inspect
     params=list(inspect.signature(f).parameters)[1:]
     # exhaustive small
-    doms=[small if p in('x','y') else list(range(-1,6)) for p in params]
+    doms=[small if p in('x','y','v','m','u') else list(range(-1,6)) for p in params]
     tot=1
     for d in doms: tot*=len(d)
     it = itertools.product(*doms) if tot<=60000 else (tuple(rng.choice(d) for d in doms) for _ in range(60000))
@@ -129,7 +174,7 @@ def crosscheck_lemmas(seed=0, nrand=3000):
       ev+=1
       if not f(A,*args): fails.append((name,args))
     for _ in range(nrand):
-      args=[pool() if p in('x','y') else kpool() for p in params]
+      args=[pool() if p in('x','y','v','m','u') else kpool() for p in params]
       # make guarded relations likely to hold
       if name in('and-clear','or-field') and rng.random()<0.8:
         d=dict(zip(params,args)); d['hi']=d['lo']+d['w']
@@ -137,6 +182,17 @@ def crosscheck_lemmas(seed=0, nrand=3000):
         if name=='or-field' and d['lo']>=0 and d['w']>=0:
           m=rng.getrandbits(d['w']) if d['w']>0 else 0; d['y']=m<<d['lo']
           xx=abs(d['x']); d['x']= xx & ~(((1<<d['w'])-1)<<d['lo'])
+        args=[d[p] for p in params]
+      if name in('insert','insert-range','shl-or','cat-range') and rng.random()<0.9:
+        d=dict(zip(params,args))
+        for kk in ('lo','w','k','a'):
+          if kk in d: d[kk]=abs(d[kk])%40
+        if 'x' in d: d['x']=abs(d['x'])
+        if 'v' in d: d['v']=abs(d['v'])
+        if 'm' in d: d['m']=rng.getrandbits(d['w']) if d['w']>0 else 0
+        if 'u' in d: d['u']=rng.getrandbits(d['k']) if d['k']>0 else 0
+        if name=='insert-range': d['n']=d['lo']+d['w']+rng.choice([0,0,1,5]); d['x']=rng.getrandbits(d['n']) if d['n']>0 else 0
+        if name=='cat-range': d['t']=d['a']+d['k']; d['v']=rng.getrandbits(d['a']) if d['a']>0 else 0
         args=[d[p] for p in params]
       if name in('pw-add','div-lt') and rng.random()<0.8:
         d=dict(zip(params,args))
@@ -178,42 +234,92 @@ class Theory:
   def band(s,x,y): x,y=s._ord(x,y); s._add(s.ands,(x,y)); return s.A.band(x,y)
   def bor(s,x,y):  x,y=s._ord(x,y); s._add(s.ors,(x,y));  return s.A.bor(x,y)
   def bxor(s,x,y): x,y=s._ord(x,y); s._add(s.xors,(x,y)); return s.A.bxor(x,y)
-  def shl(s,x,k):  s._add(s.shls,(x,z3.simplify(k))); return x*s.pow2(k)
+  def shl(s,x,k):
+    k=z3.simplify(k); x=z3.simplify(x)
+    if z3.is_int_value(k) or z3.is_int_value(x):
+      if not z3.is_int_value(k): s.pow2(k)
+      if not z3.is_int_value(x): s._add(s.shls,(x,k))
+      return s.A.mulp(x,k)
+    s.pow2(k); s._add(s.shls,(x,k)); return s.A.mulp(x,k)
   def shr(s,x,k):  return s.divp(x,k)
-  def divp(s,x,k): s._add(s.dm,(x,z3.simplify(k))); return x / s.pow2(k)
-  def modp(s,x,k): s._add(s.dm,(x,z3.simplify(k))); return x % s.pow2(k)
+  def divp(s,x,k):
+    k=z3.simplify(k)
+    if not z3.is_int_value(k): s.pow2(k); s._add(s.dm,(x,k))
+    return s.A.divp(x,k)
+  def modp(s,x,k):
+    k=z3.simplify(k)
+    if not z3.is_int_value(k): s.pow2(k); s._add(s.dm,(x,k))
+    return s.A.modp(x,k)
 
-  def instances(s, limit=4000):
-    A=s.A; out=[]
+  @staticmethod
+  def _sums(lo,w,hi):
+    """is hi == lo + w a linear identity (independent of path conditions)?  Triple-indexed schemas are only instantiated
+    for such triples: the code computes the width as stop-start, so nothing is lost and the instance set stays small."""
+    d=z3.simplify(lo+w-hi)
+    return z3.is_int_value(d) and d.as_long()==0
+
+  def _cbor(s,a,b):
+    a,b=s._ord(a,b); return s.A.bor(a,b)
+
+  def instances(s, level=2):
+    """ground instances of the lemma schemas for the terms of this VC.  level 1: the cheap idiom-level core; level 2: everything."""
+    A=s.A; out=[]; heavy=[]
     K=[k[0] for k in s.K]
-    Kn=K+[z3.IntVal(1)] if K else []
+    Z=z3.IntVal(0); ONE=z3.IntVal(1)
     for k in K: out.append(_pw_pos(A,k))
     for j,k in itertools.permutations(K,2):
       out.append(_pw_mono(A,j,k)); out.append(_pw_succ(A,j,k))
     for i,j,k in itertools.product(K,K,K):
-      if k.get_id()!=i.get_id() and k.get_id()!=j.get_id() and i.get_id()<=j.get_id(): out.append(_pw_add(A,i,j,k))
-    # exponent 1 combined with symbolic ones (2*pow2(j) == pow2(j+1) is pw-succ)
+      if k.get_id()!=i.get_id() and k.get_id()!=j.get_id() and i.get_id()<=j.get_id() and s._sums(i,j,k): out.append(_pw_add(A,i,j,k))
+    dm=list(s.dm); seen={(a.get_id(),b.get_id()) for a,b in dm}
+    def need(x,k):
+      if z3.is_int_value(k): return
+      key=(x.get_id(),k.get_id())
+      if key not in seen: seen.add(key); dm.append((x,k))
+    triples=[(lo,w,hi) for lo,w,hi in itertools.product(K+[Z],K+[ONE],K) if lo.get_id()!=hi.get_id() and s._sums(lo,w,hi)]
+    xs=[]; xseen=set()
+    for (x,y) in s.ands:
+      for t in (x,y):
+        if not z3.is_int_value(t) and t.get_id() not in xseen: xseen.add(t.get_id()); xs.append(t)
+    for (x,y) in s.ands:
+      for lo,w,hi in triples: need(x,lo); need(A.divp(x,lo),w)
+      for k in K: need(x,k); need(y,k)          # and-mask introduces modp(x,k)
     for (x,y) in s.ands:
       out.append(_and_range(A,x,y)); out.append(_and_one(A,x,y)); out.append(_and_one(A,y,x))
       for k in K:
-        out.append(_and_mask(A,x,y,k)); out.append(_and_mask_l(A,x,y,k)); out.append(_and_clearbit(A,x,y,k))
-      for lo,hi,w in itertools.product(K,K,K):
-        if lo.get_id()!=hi.get_id(): out.append(_and_clear(A,x,y,lo,hi,w))
+        out.append(_and_mask(A,x,y,k)); out.append(_and_mask_l(A,x,y,k)); out.append(_and_clearbit(A,x,y,k)); out.append(_and_clearbit(A,y,x,k))
+      for lo,w,hi in triples:
+        out.append(_and_clear(A,x,y,lo,hi,w)); out.append(_and_clear(A,y,x,lo,hi,w))
+    # insertion of a field / a bit:  (x with field cleared) | (m << lo)
+    for (m,lo) in s.shls:
+      for x in xs:
+        for w in K+[ONE]:
+          need(x,lo); need(A.divp(x,lo),w)
+          out.append(_insert(A,s._cbor,x,lo,w,m))
+          for n in K:
+            if n.get_id()!=lo.get_id() and n.get_id()!=w.get_id(): out.append(_insert_range(A,x,lo,w,n,m))
     for (x,y) in s.ors:
       out.append(_or_lower(A,x,y))
-      for k in K: out.append(_or_range(A,x,y,k)); out.append(_or_bit(A,x,y,k)); out.append(_or_bit(A,y,x,k))
-      for lo,w,hi in itertools.product(K,K,K):
-        if lo.get_id()!=hi.get_id(): out.append(_or_field(A,x,y,lo,w,hi)); out.append(_or_field(A,y,x,lo,w,hi))
+      for k in K: out.append(_or_range(A,x,y,k))
+      for (v,k) in s.shls:
+        t=A.mulp(v,k)
+        for a,b in ((x,y),(y,x)):
+          if a.get_id()==t.get_id() or z3.simplify(a).get_id()==z3.simplify(t).get_id():
+            out.append(_shl_or(A,s._cbor,v,k,b))
+            for aw in K+[Z]:
+              for tot in K:
+                if s._sums(aw,k,tot): out.append(_cat_range(A,v,aw,k,b,tot))
+      for lo,w,hi in triples:
+        heavy.append(_or_field(A,x,y,lo,w,hi)); heavy.append(_or_field(A,y,x,lo,w,hi))
     for (x,y) in s.xors:
       for k in K: out.append(_xor_range(A,x,y,k))
     for (x,k) in s.shls:
       for j in K: out.append(_shl_mod(A,x,k,j))
-    for (x,k) in s.dm:
+    for (x,k) in dm:
       out.append(_divmod(A,x,k)); out.append(_mod_small(A,x,k)); out.append(_mod_wrap(A,x,k)); out.append(_div_ge(A,x,k))
       for j,i in itertools.product(K,K):
-        if i.get_id()!=j.get_id(): out.append(_div_lt(A,x,k,j,i))
-    if len(out)>limit: out=out[:limit]
-    return out
+        if i.get_id()!=j.get_id() and s._sums(j,k,i): heavy.append(_div_lt(A,x,k,j,i))
+    return out if level==1 else out+heavy
 
 # ----------------------------------------------------------------------------- refutation theory
 class RefuteTheory(Theory):
